@@ -103,13 +103,13 @@ theorem fastcgi_underscore_twin_won_in_old_code :
         (fromWire [(b!"X_Forwarded_For", b!"6.6.6.6")])).map (fun h => (envCandidatesOld h envXFF, envCandidates h envXFF)) =
       some ([b!"1.2.3.4", b!"6.6.6.6"], [b!"1.2.3.4"]) := by decide
 
-/-! ### templates' httpInclude: the virtual sub-request is attributed from the outer peer's headers
+/-! ### templates' httpInclude: what the virtual sub-request was attributed before it got the outer peer's address
 
-`funcHTTPInclude` sends a virtual request with `RemoteAddr = "127.0.0.1:10000"` and a CLONE of the outer
-request's header through `server.ServeHTTP`.  When loopback is a trusted proxy (`private_ranges` contains
-127.0.0.1/8) `determineTrustedProxy` treats that virtual request as coming from a trusted proxy and takes
-its client address from headers which the — untrusted — outer peer wrote.  Reproduced on the real code;
-protocol line in `Driver.witnessLines`. -/
+`funcHTTPInclude` used to send its virtual request with `RemoteAddr = "127.0.0.1:10000"` and a clone of the
+outer request's header: when loopback was a trusted proxy (`private_ranges`) the sub-request was attributed
+the address an untrusted outer peer had written into X-Forwarded-For.  Repaired (the virtual request carries
+the outer request's remote address); the old behaviour is kept as a non-vacuity fact, its protocol line in
+corpus/C10/fixed-findings.txt. -/
 
 def toyNetL : Net Bytes Bytes where
   parseAddr := fun s => if [b!"127.0.0.1", b!"8.8.8.8", b!"6.6.6.6"].contains s then some s else none
@@ -121,16 +121,15 @@ def witInc : Cfg Bytes :=
   { srvTrusted := some [b!"127."], clientIPHeaders := none, strict := 0, handlerTrusted := [],
     omitXFF := false, omitXFP := false, omitXFH := false }
 
-/-- FULL statement (fails): for an outer peer that is not a trusted proxy, what the included sub-request
-    is attributed does not depend on the outer request's headers. -/
-theorem include_attribution_full_fails :
-    ∃ (cfg : Cfg Bytes) (c : Conn) (w w' : List (Bytes × Bytes)),
-      serverTrusts toyNetL cfg c = false ∧
-      (serveInclude toyNetL cfg c w).clientIP ≠ (serveInclude toyNetL cfg c w').clientIP :=
-  ⟨witInc, ⟨b!"8.8.8.8:1", false, b!"a", false⟩, [(b!"X-Forwarded-For", b!"6.6.6.6")], [], by decide, by decide⟩
+/-- the virtual request as it was: always from the dummy loopback address -/
+def serveIncludeOld (cfg : Cfg Bytes) (c : Conn) (wire : List (Bytes × Bytes)) : Out :=
+  serve toyNetL cfg { c with remoteAddr := virtualRemote } wire
 
-example : (serveInclude toyNetL witInc ⟨b!"8.8.8.8:1", false, b!"a", false⟩ [(b!"X-Forwarded-For", b!"6.6.6.6")]).clientIP = b!"6.6.6.6" ∧
-    (serve toyNetL witInc ⟨b!"8.8.8.8:1", false, b!"a", false⟩ [(b!"X-Forwarded-For", b!"6.6.6.6")]).clientIP = b!"8.8.8.8" := by decide
+/-- the old code attributed the untrusted 8.8.8.8's sub-request the 6.6.6.6 it claimed; now it is 8.8.8.8 -/
+theorem include_honoured_untrusted_headers_in_old_code :
+    (serveIncludeOld witInc ⟨b!"8.8.8.8:1", false, b!"a", false⟩ [(b!"X-Forwarded-For", b!"6.6.6.6")]).clientIP = b!"6.6.6.6" ∧
+    (serveInclude toyNetL witInc ⟨b!"8.8.8.8:1", false, b!"a", false⟩ [(b!"X-Forwarded-For", b!"6.6.6.6")]).clientIP = b!"8.8.8.8" := by
+  decide
 
 /-- trusted_proxies 10.0.0.0/8, default client_ip_headers -/
 def exCfgW : Cfg Bytes :=
